@@ -429,16 +429,15 @@ def rule_skipped_import_visible(ck, F):
     file read earlier are invisible to a later importer."""
     from rules import anchors as A
     empties = A.by_signature(F, [], "model::doc::RustDocument")
-    if len(empties) != 1:
+    if not empties:
         return
-    empty = empties[0]
     skipping = []
     for b in scans.bodies(F.lib):
         if "yaserde_tests" in b["path"] or b.get("closure"):
             continue
         B = M.Body(b)
         loads = [(bb, t) for bb, t in B.calls_to(C12.ATOMIC_LOAD) if any("processed" in o.fields() for o in M.trace(B, t["args"][0]))]
-        if not loads or not B.calls_to(empty):
+        if not loads or not B.calls_to(*empties, resolved=True):
             continue
         for lbb, lt in loads:
             tgt = lt.get("target")
@@ -451,7 +450,7 @@ def rule_skipped_import_visible(ck, F):
             if true_arm is None:
                 continue
             reach = B.reachable_from(true_arm)
-            if any(ebb in reach for ebb, _ in B.calls_to(empty)):
+            if any(ebb in reach for ebb, _ in B.calls_to(*empties, resolved=True)):
                 skipping.append((b, B.term(lbb).get("sp")))
     if not skipping:
         ck.ok("R2", "skipped-import-visible", "-", "no import is answered with an empty document because its file was read already")
